@@ -357,7 +357,19 @@ void on_event(int task, int kind, long pnum, long a, long b, long c, const void 
             if (iv.type == 2 && iv.fsupc == fs) viol("C03", "write_under_reader", fmt("pruning supernode %ld (by column %ld) while task %d traverses its pruned copy", fs, a, t));
         break;
     }
-    case SLU_EV_PRUNE_MID: me.in_prune = false; me.prune_fsupc = -1; break; // partition complete; the flag store follows
+    case SLU_EV_PRUNE_STEP:
+    case SLU_EV_PRUNE_MID: {
+        // the partition may only permute the pruning copy of the supernode's subscripts: for a one-column supernode that is the
+        // duplicate stored after the column's own list, otherwise the list of the last column; the first copy is what other
+        // threads read (unprotected) while they gather and scatter numerical values
+        long irep = b, s_ = Glu->supno[irep];
+        bool single = Glu->xsup_end[s_] - Glu->xsup[s_] == 1;
+        long lo = single ? Glu->xlsub_end[irep] : Glu->xlsub[irep];
+        long pos = kind == SLU_EV_PRUNE_STEP ? c : (long)((int_t *)shared->xprune)[irep];
+        if (pos < lo) viol("C03", "prune_touches_first_subscript_copy", fmt("column %ld prunes supernode ending at %ld at subscript position %ld, before the pruning copy starts (%ld)", a, irep, pos, lo));
+        if (kind == SLU_EV_PRUNE_MID) { me.in_prune = false; me.prune_fsupc = -1; } // partition complete; the flag store follows
+        break;
+    }
     case SLU_EV_PRUNE_END: break;
     case SLU_EV_PANEL_DONE: {
         long J = a, w = shared->pan_status[J].size;
